@@ -26,7 +26,7 @@ _NP = {
     "isfinite": ("isfinite", [("x", "x")]), "sum": ("sum", [("a", "x"), ("axis", "axis")]), "prod": ("product", [("a", "x"), ("axis", "axis")]), "abs": ("abs", [("x", "x")]),
     "power": ("power", [("x1", "x"), ("x2", "y")]), "sqrt": ("sqrt", [("x", "x")]), "divide": ("divide", [("x1", "x"), ("x2", "y")]), "log": ("log", [("x", "x")]), "exp": ("exp", [("x", "x")]),
     "stack": ("stack", [("arrays", "seq"), ("axis", "axis")]), "where": ("where", [("condition", "mask"), ("x", "x"), ("y", "y")]), "concatenate": ("concatenate", [("arrays", "seq"), ("axis", "axis")]),
-    "reshape": ("reshape", [("a", "x"), ("newshape", "shape")]), "ravel": ("ravel", [("a", "x")]), "ones": ("ones", [("shape", "shape"), ("dtype", "dtype")]), "zeros": ("zeros", [("shape", "shape"), ("dtype", "dtype")]),
+    "reshape": ("reshape", [("a", "x"), ("newshape", "shape"), ("order", "order")]), "ravel": ("ravel", [("a", "x"), ("order", "order")]), "ones": ("ones", [("shape", "shape"), ("dtype", "dtype")]), "zeros": ("zeros", [("shape", "shape"), ("dtype", "dtype")]),
     "asarray": ("astensor", [("a", "x"), ("dtype", "dtype")]), "array": ("astensor", [("object", "x"), ("dtype", "dtype")]),
     "min": ("min_of", [("a", "x")]), "max": ("max_of", [("a", "x")]), "amin": ("min_of", [("a", "x")]), "amax": ("max_of", [("a", "x")]),
 }
@@ -243,7 +243,7 @@ def check(ctx, rid):
                     n_ok += 1
                     ctx.holds(rid, site, repr(want))
                 else:
-                    wrong = [r_ for r_ in want.roles if _show(got.roles.get(r_)) != _show(want.roles.get(r_))]
+                    wrong = [r_ for r_ in want.roles if _show(got.roles.get(r_)) != _show(want.roles.get(r_))] + [r_ for r_ in got.roles if r_ not in want.roles]
                     what = f"computes {got.op} where the interface says {want.op}" if got.op != want.op else f"passes {', '.join(f'{r_}={_show(got.roles.get(r_))}' for r_ in wrong)} to the library where the caller's {', '.join(f'{r_}={_show(want.roles.get(r_))}' for r_ in wrong)} belong"
                     ctx.violated(rid, m, label, f"tensorlib.{mname} of the {backend} backend {what}: every rate, constraint term and batched evaluation computed on this backend through `{mname}` is wrong while the other backends are right", expected=repr(want), found=repr(got))
         # ---- conditional(predicate, true_callable, false_callable): the branch taken is the predicate's
@@ -291,6 +291,13 @@ def _normalise(c, backend=None):
         if isinstance(v, _Wrap) and v.canon.op == "max_of" and _show(v.canon.roles.get("x")) == _show(roles.get("x")):
             roles["hi"] = None
         return _Canon("clip", roles)
+    if c.op in ("reshape", "ravel") and "order" in c.roles:
+        # numpy / jax reshape(a, shape, order) and ravel(a, order): 'C' (row-major, the last axis fastest) is the default and what every
+        # caller's flat indices assume; 'F' reads column-major and 'A' / 'K' do so for column-major (e.g. transposed) inputs
+        roles = dict(c.roles)
+        if roles["order"] in (None, "C"):
+            del roles["order"]
+        return _Canon(c.op, roles)
     if c.op == "einsum" and c.roles.get("spec") == "i,j->ij" and isinstance(c.roles.get("operands"), list) and len(c.roles["operands"]) == 2:
         return _Canon("outer", {"x": c.roles["operands"][0], "y": c.roles["operands"][1]})
     return c
